@@ -151,6 +151,8 @@ def expr(e, case, sp, lang='py'):
         return 'sum([%s, %s])' % (X(1), X(2))
     if k == 'idx0':
         return '[%s, %s][0]' % (X(1), strip_outer(X(2)))
+    if k == 'dsub':
+        return "{'k': %s, 'm': %s}['k']" % (X(1), X(2)) if py else "{k: %s, m: %s}['k']" % (X(1), X(2))
     if k == 'udf':
         return 'udf1(%s)' % X(1)
     if k == 'poison':
@@ -212,7 +214,11 @@ def item(it, case, sp, lang, first):
 
 
 def kw(word, sp):
-    return sp.pick([word, word.lower(), word.capitalize()])
+    w = sp.pick([word, word.lower(), word.capitalize()])
+    if ' ' in w:
+        # ORDER BY / GROUP BY / LEFT OUTER JOIN ...: any number of spaces between the words of one keyword
+        w = w.replace(' ', sp.pick([' ', ' ', '  ', '   ']))
+    return w
 
 
 def render_query(case, sp=None, lang='py'):
